@@ -1052,6 +1052,14 @@ func (x *Exec) evalBuiltinSpec(ce *CEnv, name string, args []Expr) (*Val, bool) 
 		b := x.eval(ce, args[2])
 		a, b = x.unify(a, b)
 		return x.iteVal(c.T, a, b), true
+	case "ghost":
+		id, ok := args[0].(*EIdent)
+		if !ok {
+			cfail("ghost(name)")
+		}
+		k := "G_" + id.Name
+		x.registerGhost(k)
+		return &Val{Typ: intT, T: x.getHeap(ce.st, k)}, true
 	case "asiface":
 		// asiface(p): the interface value holding pointer p (dynamic type = p's static type)
 		v := x.eval(ce, args[0])
